@@ -176,7 +176,11 @@ public:
   String& append(const char* str, usize len)
   {
     usize newLen = data->len + len;
+    usize offset = (usize)str - (usize)data->str; // str may point into this string's own text, which detach() may move
+    bool inside = offset <= data->len;
     detach(data->len, newLen);
+    if(inside)
+      str = data->str + offset;
     Memory::copy((char*)data->str + data->len, str, len * sizeof(char));
     ((char*)data->str)[data->len = newLen] = '\0';
     return *this;
